@@ -69,7 +69,7 @@ SPEC_ENTRY = {'title': 'Command/response drivers encode requests per spec and ch
               ('C20_gpu_errors_change_resolution', 'Proofs/GpuProofs.v', 'sound_change_resolution',
                'for EVERY state, parameters and answer list: the answers consumed are one per request emitted; every request decodes as a plain '
                'command; either all answers were the expected success type for their command, or the first one that was not (any other 32-bit '
-               'type, or a transport error) is the last request emitted and the result is Err'),
+               'type, or a transport error) makes the result Err (in the model the operation also stops there)'),
               ('C20_gpu_errors_change_resolution_prefix', 'Proofs/GpuProofs.v', 'sound_change_resolution_prefix', None),
               ('C20_gpu_errors_setup_framebuffer', 'Proofs/GpuProofs.v', 'sound_setup_framebuffer', None),
               ('C20_gpu_errors_flush', 'Proofs/GpuProofs.v', 'sound_flush', None),
@@ -136,7 +136,7 @@ SPEC_ENTRY['theorems'] += [
   ('C20_gpu_monitor_2021_holds_of_model_move_cursor', 'Proofs/GpuMonProofs.v', 'mon_sequence_holds_move_cursor', None),
   ('C20_gpu_monitor_2021_holds_of_model_resolution', 'Proofs/GpuMonProofs.v', 'mon_sequence_holds_resolution', None),
   ('C20_gpu_monitor_2021_holds_of_model_get_edid', 'Proofs/GpuMonProofs.v', 'mon_sequence_holds_get_edid', None),
-  ('C20_gpu_monitor_2022_meaning', 'Proofs/GpuMonProofs.v', 'mon_errors_meaning', 'monitor 2022, a true verdict on ANY list means: the list is [class] ++ answered requests [cursor?; answered; response type; n; bytes]*, every request decodes to a command, and an answer that is not the expected success (failed transport call, or on the control queue any type other than the one the specification prescribes for that command) belongs to the LAST request and the result class is 1 (error)'),
+  ('C20_gpu_monitor_2022_meaning', 'Proofs/GpuMonProofs.v', 'mon_errors_meaning', 'monitor 2022, a true verdict on ANY list means: the list is [class] ++ answered requests [cursor?; answered; response type; n; bytes]*, every request decodes to a command, and an answer that is not the expected success (failed transport call, or on the control queue any type other than the one the specification prescribes for that command) makes the result class 1 (error)'),
   ('C20_gpu_monitor_2022_rule_is_the_checker', 'Proofs/GpuMonProofs.v', 'resp_ok_rule', 'that rule is exactly what the specification-side checker resp_ok computes'),
   ('C20_gpu_monitor_2022_holds_of_model', 'Proofs/GpuMonProofs.v', 'mon_errors_holds_of_model', 'every model operation that is `sound` (all public ones: the C20_gpu_errors_... theorems), from every state, on EVERY answer list: the line written from its requests and the answers it consumed passes monitor 2022'),
   ('C20_gpu_monitor_2023_meaning', 'Proofs/GpuMonProofs.v', 'mon_backing_meaning', 'monitor 2023, a true verdict on ANY list means: the list is a sequence of [tag; a; b; c] resource / memory events and, replayed against the bookkeeping of a conforming device: every attach names an existing resource, lies inside one live DMA region and is at least 4wh long; every dealloc releases a live region inside which no resource is backed; every transfer is from a resource with backing'),
@@ -151,7 +151,7 @@ SPEC_ENTRY['theorems'] += [
   ('C20_gpu_monitor_2026_meaning', 'Proofs/GpuMonProofs.v', 'mon_image_meaning', "monitor 2026 (monitor only): the device read all 16384 bytes of the caller's cursor image unchanged"),
   ('C20_gpu_monitor_kinds', 'Proofs/GpuMonProofs.v', 'gpu_monitor_kinds', None),
   ('C20_gpu_monitor_lines_nonvacuous', 'Proofs/GpuMonProofs.v', 'mon_lines_nonvacuous', 'concrete accepted and refused lines of monitors 2020 and 2023'),
-  ('C20_gpu_monitor_2022_rejects_cleanup_after_error', 'Proofs/GpuMonProofs.v', 'mon_errors_rejects_cleanup_after_an_error_answer', 'AUDIT: 2022 demands more than the property text (the unexpected answer must be the last request)'),
+  ('C20_gpu_monitor_2022_accepts_cleanup_after_error', 'Proofs/GpuMonProofs.v', 'mon_errors_accepts_cleanup_after_an_error_answer', 'AUDIT: 2022 used to demand that the unexpected answer is the last request; the clause was removed: a clean-up command after an error answer is accepted'),
   ('C20_gpu_monitor_2022_ignores_class_when_all_expected', 'Proofs/GpuMonProofs.v', 'mon_errors_ignores_the_class_when_all_answers_are_expected', 'AUDIT: with only expected answers 2022 does not look at the class'),
   ('C20_gpu_monitor_2021_fixes_teardown_order', 'Proofs/GpuMonProofs.v', 'mon_sequence_fixes_the_teardown_order', 'AUDIT: 2021 fixes the order of the tear-down commands, which the property text does not name'),
 ]
